@@ -3,29 +3,59 @@ from repl import *
 import c03
 
 
-def replica_events_world(pair, r, res):
+def replica_events_world(pair, r, res, defer=False):
+    """defer=False: every subscriber is drained after every call.  defer=True: events stay queued (fewer than 24 per
+    subscriber, the queue holds 32) while further calls run, a second subscriber joins in the middle, and every
+    subscriber must in the end have seen, in operation order, the concatenation of the per-call specifications of the
+    calls made since it subscribed; growth steps make back-to-back upgrade-only proofs frequent."""
     w = build_world(pair, r)
     p = pair
     subs = ["s1", "s2", "s3"][:r.choice([1, 2, 3])]
     for s in subs:
         p.raw("sub R " + s)
         p.raw("sub W " + s)
+    pending = dict((c, dict((s, []) for s in subs)) for c in "WR")
+    calls = dict(W=[], R=[])
+
+    def flush(core, what):
+        first = None
+        for s in sorted(pending[core]):
+            ie, _ = p.raw("events %s %s" % (core, s))
+            exp = "ok" + "".join(" " + e for e in pending[core][s])
+            pending[core][s] = []
+            if ie != exp:
+                if not defer:
+                    if first is not None and ie != first:
+                        raise Violation("events:subscribers", "%s: subscribers saw different events: %s vs %s" % (what, first, ie), what)
+                    raise Violation("events:" + what.split(" ")[0], "%s emitted [%s], specification says [%s]" % (what, ie[3:], exp[3:]), what)
+                raise Violation("events:undrained", "subscriber %s of %s saw [%s] for the calls since it last drained (%s), specification says [%s]" %
+                                (s, core, ie[3:], "; ".join(calls[core][-8:]), exp[3:]), what)
+            first = ie
+        calls[core] = []
 
     def drain(core, expected, what):
-        first = None
-        for s in subs:
-            ie, _ = p.raw("events %s %s" % (core, s))
-            if first is None:
-                first = ie
-            elif ie != first:
-                raise Violation("events:subscribers", "%s: subscribers saw different events: %s vs %s" % (what, first, ie), what)
-        exp = "ok" + "".join(" " + e for e in expected)
-        if first != exp:
-            raise Violation("events:" + what.split(" ")[0], "%s emitted [%s], specification says [%s]" % (what, first[3:], exp[3:]), what)
+        calls[core].append(what)
+        for s in pending[core]:
+            pending[core][s].extend(expected)
+        if not defer or max(len(v) for v in pending[core].values()) >= 20:
+            flush(core, what)
     try:
         drain("W", [], "setup"); drain("R", [], "setup")
-        for step in range(12):
+        for step in range(12 if not defer else 16):
             c = r.random()
+            if defer and step == 5 and "late" not in pending["R"]:
+                for core in "WR":
+                    p.raw("sub %s late" % core)
+                    pending[core]["late"] = []
+            if defer and c < 0.3:
+                # growth step: the writer appends, the replica fetches an upgrade-only proof
+                old = w.wspec.length
+                w.w_append([rnd_block(r)])
+                drain("W", ["U", "H:%d:1:0" % old], "append 1 block")
+                c = 0.99
+                forced = w.honest_request(r, kinds=["upgrade"])
+            else:
+                forced = None
             if c < 0.15:
                 old = w.wspec.length
                 k = r.choice([0, 1, 2])
@@ -42,7 +72,7 @@ def replica_events_world(pair, r, res):
                 w.w_clear(s, s + 1)
                 drain("W", [], "clear")
                 continue
-            req = w.honest_request(r)
+            req = forced or w.honest_request(r)
             if req is None:
                 continue
             ia, _ = w.prove(**req[1])
@@ -66,7 +96,7 @@ def replica_events_world(pair, r, res):
                     q["fork"] += 1
                 aa, _ = p.do("apply R " + proof_text(q))
                 if aa != "ok 1":
-                    drain("R", [], "refused proof")
+                    drain("R", [], "refused proof (%s)" % req[0])
                     res.count("refused")
                     continue
             before = set(w.rheld)
@@ -82,6 +112,8 @@ def replica_events_world(pair, r, res):
             ann = set([pr["block"]["index"]]) if pr["block"] is not None else set()
             if not newly <= ann:
                 raise Violation("events:availability", "blocks %s became available without a have event" % (newly - ann), step)
+        if defer:
+            flush("W", "end of history"); flush("R", "end of history")
     except Violation as v:
         return dict(key=v.key, what=v.what, replay=dict(world=w.log, subscribers=len(subs)))
     return None
@@ -214,8 +246,8 @@ def main(tier, seed):
                 res.violations.append(dict(key=v.key, what=v.what, replay=dict(history=[op_json(o) for o in h])))
             res.disagreements.extend(pair.disagreements[:2]); pair.disagreements = []
         for k in range(20 if tier == "quick" else 500):
-            v = replica_events_world(pair, r, res)
-            res.add_case(("replica-world", k), True)
+            v = replica_events_world(pair, r, res, defer=(k % 2 == 1))
+            res.add_case(("replica-world", k, "undrained" if k % 2 else "drained"), True)
             if v:
                 res.violations.append(v)
             res.disagreements.extend(pair.disagreements[:2]); pair.disagreements = []
